@@ -36,6 +36,18 @@ def snapshot_state(v, e, c):
             "c": [[k, [w.id for w in x.vertices]] for k, x in c.items()]}
 
 
+PENDING_CHAIN = []
+
+
+def settle_chain_cases(res, bools):
+    for idx, msg, rp in PENDING_CHAIN:
+        if idx < len(bools) and bools[idx] is True:
+            res.fail("oracle", msg, rp, tag="D7-short-edge-chain")
+        else:
+            res.fail("oracle", msg + " -- and it is not the mesh the modelled merge cascade of known finding D7 produces", rp)
+    del PENDING_CHAIN[:]
+
+
 def run_case(res, spec, ne, flag, exprs, label):
     v, e, c = impl.build(spec)
     before = snapshot_state(v, e, c)
@@ -76,8 +88,6 @@ def run_case(res, spec, ne, flag, exprs, label):
     if chain and flag:
         # outside the model's scope (stale id map with reused ids); only consistency of the result is looked at
         cons = impl.consistency_errors(v2, e2, c2)
-        if cons:
-            res.fail("oracle", "chain of two-point border interfaces: resampled mesh inconsistent: " + cons[0], replay, tag="D7-short-edge-chain")
         res.count("chain case: shape clauses skipped (known finding D7), correspondence kept")
         # the model follows the id map and get_unused_id exactly, so the merge cascade itself is still tied to the code
         after = snapshot_state(v2, e2, c2)
@@ -86,6 +96,10 @@ def run_case(res, spec, ne, flag, exprs, label):
         cs_l = "[" + "; ".join(f"({C.zlit(k)}, {C.zlist(cy)})" for k, cy in after["c"]) + "]"
         exprs.append((pre + f"match generate_mesh float_index junc ncells ({st}) {ne} {C.blit(flag)} with None => false | Some (st2, narr) => "
                       f"listlistZ_eqb narr {C.zlistlist(narr)} && vs_eqb (vs st2) {vs_l} && es_eqb (es st2) {es_l} && cs_eqb (cs st2) {cs_l} end", replay))
+        if cons:
+            # attributed to known finding D7 only if the inconsistent mesh is exactly what the modelled cascade (id map, re-used ids) produces;
+            # decided once the Coq evaluation of the expression just appended is known
+            PENDING_CHAIN.append((len(exprs) - 1, "chain of two-point border interfaces: resampled mesh inconsistent: " + cons[0], replay))
         return
     after = snapshot_state(v2, e2, c2)
     bad = []
@@ -264,6 +278,7 @@ def run(res, tier, seed):
     if sweep_bad:
         res.fail("oracle", "int(len/ne*i) is not strictly increasing within [0,len-2] for some (len,ne)", {"sweep": True})
     bools, outs = C.coq_eval_bools("C11", IMPORTS, [e for e, _ in exprs], chunk=12)
+    settle_chain_cases(res, bools)
     for (e, rp), b in zip(exprs, bools):
         res.traces += 1
         if b is not True:
@@ -281,6 +296,12 @@ def search(res, tier, seed, broken):
                 run_case(r2, spec, ne, flag, sink, label)
         if [f for f in r2.failures if f["kind"] == "oracle" and not f.get("tag")]:
             break
+    if PENDING_CHAIN:
+        pend = list(PENDING_CHAIN)
+        del PENDING_CHAIN[:]
+        bools, _ = C.coq_eval_bools("C11s", IMPORTS, [sink[i][0] for i, _, _ in pend], chunk=12)
+        PENDING_CHAIN.extend((k, m, rp) for k, (_, m, rp) in enumerate(pend))
+        settle_chain_cases(r2, bools)
     res.failures.extend(f for f in r2.failures if f["kind"] == "oracle")
     res.notes.append(f"search: {r2.evaluations} extra oracle cases")
 
@@ -292,6 +313,7 @@ def replay(res, obj):
     sink = []
     run_case(res, inp["spec"], inp["ne"], inp["flag"], sink, "replay")
     bools, _ = C.coq_eval_bools("C11r", IMPORTS, [e for e, _ in sink], chunk=12)
+    settle_chain_cases(res, bools)
     for (e, rp), b in zip(sink, bools):
         if b is not True:
             res.fail("correspondence", "model != implementation", {"correspondence": "Model/Resample.v", "case": rp})
